@@ -5,6 +5,7 @@ import (
 	"encoding/hex"
 	"flag"
 	"fmt"
+	"google.golang.org/protobuf/encoding/protowire"
 	"os"
 	"os/exec"
 	"path/filepath"
@@ -326,6 +327,8 @@ func crashRun(args []string) error {
 			c := calls[n-1]
 			if len(c.data) > 0 && len(c.paths) > 0 && strings.HasPrefix(c.paths[0], dry) {
 				ks := []int{1, len(c.data) / 2, len(c.data) - 1}
+				// the dangerous prefixes of a protobuf message are those that end on a field boundary: they decode
+				ks = append(ks, fieldBoundaries(c.data)...)
 				if *tornMode == "all" {
 					ks = nil
 					for k := 1; k < len(c.data); k++ {
@@ -342,6 +345,39 @@ func crashRun(args []string) error {
 		os.RemoveAll(dry)
 	}
 	return nil
+}
+
+// fieldBoundaries lists the offsets at which a top-level field of a protobuf message ends (and, one level down,
+// inside the first two length-delimited fields): a write torn there leaves a prefix that decodes without error.
+func fieldBoundaries(data []byte) []int {
+	var out []int
+	var walk func(b []byte, base, depth int)
+	walk = func(b []byte, base, depth int) {
+		off := 0
+		for off < len(b) {
+			num, typ, n := protowire.ConsumeTag(b[off:])
+			if n < 0 || num <= 0 {
+				return
+			}
+			m := protowire.ConsumeFieldValue(num, typ, b[off+n:])
+			if m < 0 {
+				return
+			}
+			if typ == protowire.BytesType && depth < 1 {
+				_, l := protowire.ConsumeVarint(b[off+n:])
+				walk(b[off+n+l:off+n+m], base+off+n+l, depth+1)
+			}
+			off += n + m
+			if base+off < len(data) {
+				out = append(out, base+off)
+			}
+		}
+	}
+	walk(data, 0, 0)
+	if len(out) > 12 {
+		out = out[:12]
+	}
+	return out
 }
 
 func crashDoc(id, variant string) *sbom.Document {
